@@ -38,12 +38,20 @@ __CPROVER_requires(__CPROVER_is_fresh(f, sizeof(*f)) && WV_FILE_OPEN(f) && f->po
 __CPROVER_assigns(f->pos, f->eof)
 __CPROVER_ensures(__CPROVER_return_value == c && f->pos == __CPROVER_old(f->pos) - 1 && !f->eof);
 
-/* fseek(f, off, SEEK_SET): sets the position (seeking beyond the end is allowed by POSIX; the repository never relies on it
-   here, so the contract requires off <= len where a later read assumes pos <= len), clears the EOF indicator */
+/* fseek(f, off, whence): sets the position to off from the start, the current position or the end (seeking beyond the end is
+   allowed by POSIX), clears the EOF indicator; ftell(f): the position.  (A target before the start fails with EINVAL in libc; the
+   contract requires a non-negative target, so a call site that cannot show it fails its precondition.) */
+#define WV_SEEK_TARGET(f, off, whence) ((whence) == SEEK_SET ? (long)(off) : (whence) == SEEK_CUR ? (long)(f)->pos + (long)(off) : (long)(f)->len + (long)(off))
 int wv_fseek(wv_FILE *f, long off, int whence)
-__CPROVER_requires(__CPROVER_is_fresh(f, sizeof(*f)) && f->open && whence == SEEK_SET && off >= 0 && off < (1l << 57))
+__CPROVER_requires(__CPROVER_is_fresh(f, sizeof(*f)) && f->open && (whence == SEEK_SET || whence == SEEK_CUR || whence == SEEK_END) && off > -(1l << 57) && off < (1l << 57) &&
+                   (whence == SEEK_CUR ==> f->pos < (1ull << 58)) && (whence == SEEK_END ==> f->len < (1ull << 58)) && WV_SEEK_TARGET(f, off, whence) >= 0 && WV_SEEK_TARGET(f, off, whence) < (1l << 58))
 __CPROVER_assigns(f->pos, f->eof)
-__CPROVER_ensures(__CPROVER_return_value == 0 && f->pos == (wv_u64)off && !f->eof);
+__CPROVER_ensures(__CPROVER_return_value == 0 && f->pos == (wv_u64)(whence == SEEK_SET ? (long)off : whence == SEEK_CUR ? (long)__CPROVER_old(f->pos) + (long)off : (long)f->len + (long)off) && !f->eof);
+
+long wv_ftell(wv_FILE *f)
+__CPROVER_requires(__CPROVER_is_fresh(f, sizeof(*f)) && f->open && f->pos < (1ull << 62))
+__CPROVER_assigns()
+__CPROVER_ensures(__CPROVER_return_value == (long)f->pos);
 
 /* fwrite(p, 1, n, f): writes n bytes at the position, extends the file, and updates the ghost write log; the byte that lands on
    the observed offset wv_wP is recorded */
